@@ -243,14 +243,15 @@ TreeOf(gs, id, n1) == IF id <= n1 THEN Depth1At(gs, id) ELSE Depth2(gs, id - n1,
 \* non-literal operands as `kids` (observed on their own by the driver), so that the judge can attribute a failure of
 \* the whole expression to the operand that already fails.
 Observe(t) == LET r == Eval(t) IN
-              [expr |-> t, src |-> Show(t), reflit |-> RefLit(r), vt |-> PrintType(r), dt |-> IF DynObservable(r) THEN 1 ELSE 0, kids |-> <<>>]
+              [expr |-> t, src |-> Show(t), reflit |-> RefLit(r), vt |-> PrintType(r), dt |-> IF DynObservable(r) THEN 1 ELSE 0,
+               ik |-> IF KindObservable(r) THEN 1 ELSE 0, kids |-> <<>>]
 IsDeep(t) == t.k # "lit"
 Operands(t) == IF t.k = "bin" THEN <<t.a, t.b>> ELSE IF t.k = "lit" THEN <<>> ELSE <<t.a>>
 KidsOf(t) == LET ds == SelectSeq(Operands(t), IsDeep) IN [i \in 1..Len(ds) |-> Observe(ds[i])]
 CaseOf(gs, id, n1) ==
   LET t == TreeOf(gs, id, n1) r == Eval(t) IN
   [id |-> id, expr |-> t, src |-> Show(t), rst |-> r.st, rcls |-> r.cls, rty |-> r.ty, rchk |-> IF r.chk THEN 1 ELSE 0,
-   reflit |-> RefLit(r), vt |-> PrintType(r), dt |-> IF DynObservable(r) THEN 1 ELSE 0,
+   reflit |-> RefLit(r), vt |-> PrintType(r), dt |-> IF DynObservable(r) THEN 1 ELSE 0, ik |-> IF KindObservable(r) THEN 1 ELSE 0,
    kids |-> IF id <= n1 THEN <<>> ELSE KidsOf(t)]
 \* N2 depth-2 cases follow the N1 depth-1 cases; shard k exports the ids with id % NShards = k
 CasesOf(gs) ==
